@@ -53,7 +53,7 @@ def run(tier):
     # handlers (functions called by state_machine) are not called from the drivers
     edges, _ = callgraph.build(F)
     handlers = {k for k in edges[sm.key] if k.startswith(P + "::")}
-    rep.floor("state-machine handlers", len(handlers), 15)
+    rep.floor("state-machine handlers", len(handlers), 10)
     for d in drv:
         direct = {k for k in edges[d.key] if k in handlers or k in (sm.key,)} | ({parse.key} & edges[d.key] if d.key != nei.key else set())
         rep.check(not direct, "single-source", "driver %s" % short(d.key),
@@ -195,8 +195,8 @@ def run(tier):
                 rep.check(not bad, "forward-provenance", "%s -> %s" % (short(f.key), ck.split("::")[-1]),
                           "an event handed to the receiver does not come from next_event_impl (fabricated, replaced or reordered)",
                           site=site(f, t["sp"]), detail=[cfg.expr_str(b) if isinstance(b, tuple) else str(b) for b in bad])
-    rep.floor("event fetch sites in the push interface", n_fetch, 9)
-    rep.floor("event forward sites in the push interface", n_fwd, 12)
+    rep.floor("event fetch sites in the push interface", n_fetch, 6)
+    rep.floor("event forward sites in the push interface", n_fwd, 9)
 
     # multi=false: one document per call
     ld = F.fn(P + "::load")
